@@ -133,7 +133,9 @@ public:
     return result.first->second.get();
   }
   /**
-   * Set the value for given key, overwriting the value if already present
+   * Set the value for given key, overwriting the value if already present.
+   * A new key that no longer fits within the limit is merged into the overflow
+   * entry, so that nothing stored there earlier is lost.
    */
   void Set(const opentelemetry::common::KeyValueIterable &attributes,
            const AttributesProcessor *attributes_processor,
@@ -151,7 +153,7 @@ public:
     }
     else if (IsOverflowAttributes())
     {
-      hash_map_[kOverflowAttributes] = std::move(aggr);
+      MergeIntoOverflowAttributes(std::move(aggr));
     }
     else
     {
@@ -168,7 +170,7 @@ public:
     }
     else if (IsOverflowAttributes())
     {
-      hash_map_[kOverflowAttributes] = std::move(aggr);
+      MergeIntoOverflowAttributes(std::move(aggr));
     }
     else
     {
@@ -223,6 +225,19 @@ private:
 
     auto result = hash_map_.emplace(kOverflowAttributes, std::move(agg));
     return result.first->second.get();
+  }
+
+  void MergeIntoOverflowAttributes(std::unique_ptr<Aggregation> aggr)
+  {
+    auto it = hash_map_.find(kOverflowAttributes);
+    if (it != hash_map_.end())
+    {
+      it->second = it->second->Merge(*aggr);
+    }
+    else
+    {
+      hash_map_.emplace(kOverflowAttributes, std::move(aggr));
+    }
   }
 
   bool IsOverflowAttributes() const { return (hash_map_.size() + 1 >= attributes_limit_); }
